@@ -51,6 +51,8 @@ struct Params {
     stack: usize,
     term: u8,
     src_vec: bool,
+    /// what the source stream reports from size_hint(): 0 = (0, None), 1 = exact, 2 = loose upper bound, 3 = (0, Some(usize::MAX))
+    hint: u8,
     // filled while building
     next_limit: usize,
     next_take: usize,
@@ -222,6 +224,8 @@ thread_local! { static FALLIBLE: std::cell::Cell<bool> = std::cell::Cell::new(fa
 struct Numbered {
     inner: SStr,
     next: u64,
+    len: usize,
+    hint: u8,
 }
 impl Stream for Numbered {
     type Item = It;
@@ -248,6 +252,16 @@ impl Stream for Numbered {
                 });
                 Poll::Ready(Some(It { pos, val, idx: [0; 3], nidx: 0, maps: 0 }))
             }
+        }
+    }
+    /// any hint with lower <= remaining <= upper is legal for a stream; adapters and collect() consult it
+    fn size_hint(&self) -> (usize, Option<usize>) {
+        let rem = self.len.saturating_sub(self.next as usize);
+        match self.hint {
+            1 => (rem, Some(rem)),
+            2 => (rem / 2, Some(rem + 5)),
+            3 => (0, Some(usize::MAX)),
+            _ => (0, None),
         }
     }
 }
@@ -403,6 +417,7 @@ pub fn run(prop: &str, thorough: bool, case_seed: u64, sub: u64) -> ExecOut {
             _ => w.below(5) as u8,
         };
         let src_vec = w.below(5) == 0;
+        let hint = [0u8, 0, 1, 1, 2, 2, 3][w.below(7)];
         let stack = if src_vec { VEC_STACKS[w.below(VEC_STACKS.len())] } else { w.below(STACKS.len()) };
         let maxlen = if thorough { 12 } else { 8 };
         let len = w.below(maxlen + 1);
@@ -412,7 +427,7 @@ pub fn run(prop: &str, thorough: bool, case_seed: u64, sub: u64) -> ExecOut {
         let err_pct = if fallible { [0, 10, 25, 50, 100][w.below(5)] } else { 0 };
         let never_pct = if w.below(8) == 0 { 8 } else { 0 };
         let panic_pct = if c02 && w.below(3) == 0 { 6 } else { 0 };
-        Params { seed: case_seed, len, limits, takes, err_pct, never_pct, panic_pct, stack, term, src_vec, ..Default::default() }
+        Params { seed: case_seed, len, limits, takes, err_pct, never_pct, panic_pct, stack, term, src_vec, hint, ..Default::default() }
     });
     let fallible = matches!(params.term, 1 | 3);
     FALLIBLE.with(|f| f.set(fallible));
@@ -459,7 +474,7 @@ pub fn run(prop: &str, thorough: bool, case_seed: u64, sub: u64) -> ExecOut {
             let items: Vec<It> = (0..params.len as u64).map(|pos| It { pos, val: Val::new(0), idx: [0; 3], nidx: 0, maps: 0 }).collect();
             build_vec(items.into_co_stream(), params.stack, params.term)
         } else {
-            let src = Numbered { inner: SStr::new(0), next: 0 };
+            let src = Numbered { inner: SStr::new(0), next: 0, len: params.len, hint: params.hint };
             build_full(src.co(), params.stack, params.term)
         }
     }));
@@ -476,8 +491,9 @@ pub fn run(prop: &str, thorough: bool, case_seed: u64, sub: u64) -> ExecOut {
     let term_name = ["for_each", "try_for_each", "map+collect<Vec>", "map+collect<Result<Vec>>", "collect<Vec>"][params.term as usize];
     let mut out = ExecOut {
         desc: format!(
-            "source={} len={} stack=[{}] terminal={} limits={:?} takes={:?} err_pct={} source_script={:?}",
+            "source={} size_hint={} len={} stack=[{}] terminal={} limits={:?} takes={:?} err_pct={} source_script={:?}",
             if params.src_vec { "Vec::into_co_stream" } else { "stream.co()" },
+            if params.src_vec { "n/a" } else { ["(0,None)", "exact", "(rem/2,Some(rem+5))", "(0,Some(usize::MAX))"][params.hint as usize] },
             params.len,
             STACKS[params.stack],
             term_name,
@@ -599,7 +615,13 @@ pub fn run(prop: &str, thorough: bool, case_seed: u64, sub: u64) -> ExecOut {
                             w.root_last = RootLast::Panicked;
                             w.ev(Ev::ExecRet(Res::Panicked));
                             if !inj {
-                                w.violate(&["C13"], format!("polling the operation panicked (not an injected panic): {m}"));
+                                // a panic is not the promised result of whichever terminal operation was running
+                                let tp: &'static str = match params.term {
+                                    0 => "C13",
+                                    1 | 3 => "C14",
+                                    _ => "C15",
+                                };
+                                w.violate(&[tp], format!("polling the operation panicked (not an injected panic): {m}"));
                             }
                         });
                     }
